@@ -314,6 +314,25 @@ def r4_constructors(chk, repo):
                 chk.check(a is not None and isinstance(a, ast.Constant) and a.value is False, "C07.R4", f, stmt_of(c), "rechunk split allows early splitting: the split time would silently move", site_text=f"{q}: split(..., allow_early_split=False)")
                 t = kw(c, "t")
                 chk.check(t is not None and (pmatch("E_c.data['time'][L_i] - int(DEFAULT_CHUNK_SPLIT_NS // 2)", t) is not None or pmatch("E_c.data['time'][L_i] - int(strax.DEFAULT_CHUNK_SPLIT_NS // 2)", t) is not None), "C07.R4", f, stmt_of(c), "split time is not half a minimum gap before the first row of the next piece", site_text=f"{q}: t = time[index] - min_gap/2")
+    # both rechunk loops cut the *remainder*, so they must walk the differences of the split indices
+    shapes = {}
+    for q, p in (("Rechunker.receive", CHUNK), ("StorageBackend._read_format_split_chunk", COMMON)):
+        f = repo.func(q, p)
+        loops = [n for n in walk_body(f.node) if isinstance(n, ast.For) and isinstance(n.target, ast.Name) and any(isinstance(c.func, ast.Attribute) and c.func.attr == "split" for st in n.body for c in calls_in(st))]
+        chk.check(len(loops) == 1, "C07.R4", f, None, f"{q}: expected one loop that splits the chunk at the chosen indices", site_text=f"{q}: split loop")
+        for lp in loops:
+            ok = False
+            it = lp.iter
+            if isinstance(it, ast.Call) and call_name(it) == "np.diff" and len(it.args) == 1 and isinstance(it.args[0], ast.Name):
+                d = [st for st in walk_body(f.node) if isinstance(st, ast.Assign) and norm(st.targets[0]) == it.args[0].id]
+                ok = bool(d) and all(isinstance(st.value, ast.Call) and (call_name(st.value) or "").endswith("get_splits") for st in d)
+            # the remainder is what gets split and indexed next
+            sp = [st for st in lp.body if isinstance(st, ast.Assign) and isinstance(st.targets[0], ast.Tuple) and isinstance(st.value, ast.Call) and isinstance(st.value.func, ast.Attribute) and st.value.func.attr == "split"]
+            rem = bool(sp) and norm(sp[0].targets[0].elts[1]) == norm(sp[0].value.func.value)
+            chk.check(ok and rem, "C07.R4", f, lp, f"{q}: the loop splits the shrinking remainder but does not walk np.diff(<get_splits result>): absolute indices applied to the remainder cut at the wrong rows or fail on valid input",
+                      site_text=f"{q}: for index in np.diff(split_indices) over the remainder", site={"function": q, "rule": "relative split indices"})
+            shapes[q] = norm(it).split("(")[0]
+    chk.check(len(set(shapes.values())) <= 1, "C07.R4", "strax/chunk.py", None, f"the save-side and load-side rechunk loops disagree on how they walk the split indices: {shapes}", site_text="rechunk loops agree (sibling check)")
     rr = repo.func("Rechunker.receive", CHUNK)
     cc = [c for c in calls_in(rr.node) if (call_name(c) or "").endswith("Chunk.concatenate")]
     chk.check(len(cc) == 1 and norm(cc[0].args[0]) == "[self.cache, chunk]", "C07.R4", rr, None, "cached rows are not put in front of the received chunk", site_text="Rechunker.receive: concatenate([cache, chunk])")
@@ -336,7 +355,7 @@ def r5_running_max(chk, repo, rule="C07.R5"):
             n += 1
             chk.check(ok, rule, f, st, f"`{L}` is overwritten with the end of the current row instead of accumulated with max(): with nested rows a cut (or gap) is found inside a long earlier row",
                       site_text=f"{q}: {L} = max({L}, end of row)", site={"function": q, "accumulator": "latest end"})
-    chk.floor(rule, "latest-end accumulators", n, 2)
+    chk.floor(rule, "latest-end accumulators", n, 1)
 
 
 # ------------------------------------------------------------------------------------ R6
@@ -430,6 +449,8 @@ def r7_presence_tests(chk, repo):
 
 
 WITNESSES = [
+    W("load-side rechunk loop uses absolute indices", "C07.R4", COMMON,
+      "for index in np.diff(split_indices):\n                _chunk, chunk = chunk.split(\n                    t=chunk.data[\"time\"][index] - int(strax.DEFAULT_CHUNK_SPLIT_NS // 2),", "for index in split_indices[1:]:\n                _chunk, chunk = chunk.split(\n                    t=chunk.data[\"time\"][index] - int(strax.DEFAULT_CHUNK_SPLIT_NS // 2),"),
     W("rechunker cache tested by truth value", "C07.R7", CHUNK,
       "if self.cache is not None:\n            # We have an old chunk", "if self.cache:\n            # We have an old chunk"),
     W("overlap plugin cache tested by row count", "C07.R7", "strax/plugins/overlap_window_plugin.py",
